@@ -322,6 +322,7 @@ impl Prop for C14 {
     match t {
       "mweeks" => {
         let (ylo, yhi) = shard_range(9999, shard, nshards);
+        let mut rev = Reverse::new(9);
         for y in ylo as i64 + 1..=yhi as i64 {
           if !(env.tier == Tier::Thorough || y % 10 == (env.seed % 10) as i64 || SPECIAL_YEARS.contains(&y)) {
             continue;
@@ -332,9 +333,11 @@ impl Prop for C14 {
             }
             for s in 0..7 {
               run_case(env, out, "mweeks", &Case::ints(&[y, m, s]), &ev);
+              rev.note("mweeks", &Case::ints(&[y, m, s]));
             }
           }
         }
+        rev.run(env, out, &ev);
         out.set_exhaustive("mweeks", env.tier == Tier::Thorough);
       }
       "dweek" => {
